@@ -32,7 +32,8 @@ Kinds == << "deadlock",                  \* C13: a listen/close call did not ret
             "wrong-source-address",      \* C12/C04: the source address returned with a datagram is not (or does not stay) the sender's
             "item-lost",                 \* C12: a connection/datagram was never delivered although, from its arrival on, some
                                          \*      handle of its address was open all the time and a call was still waiting
-            "call-panicked" >>           \* C12/C13: a listen/close/accept call panicked instead of returning
+            "call-panicked",             \* C12/C13: a listen/close/accept call panicked instead of returning
+            "datagram-truncated" >>      \* C12: a datagram was handed out shorter than it was sent (receive buffer of the caller: 65600)
 NK == Len(Kinds)
 KindIdx(s) == CHOOSE i \in 1..NK : Kinds[i] = s
 
@@ -154,11 +155,15 @@ TrPanic == /\ Is("Panic")
            /\ Flag({"call-panicked"})
            /\ UNCHANGED <<closeStarted, closeDone, acc, delivered, nsched, ndrift, keyOf, itemKey, gap, closedAtSend>>
 
+TrTruncated == /\ Is("Truncated")
+               /\ Flag(IF E.size # E.want THEN {"datagram-truncated"} ELSE {})
+               /\ UNCHANGED <<closeStarted, closeDone, acc, delivered, nsched, ndrift, keyOf, itemKey, gap, closedAtSend>>
+
 TrOther == /\ l <= Len(Trace) /\ E.ev \in {"ListenStart", "Replayed", "End", "Free", "Churn"} /\ l' = l + 1
            /\ UNCHANGED <<closeStarted, closeDone, acc, delivered, vio, nsched, ndrift, keyOf, itemKey, gap, closedAtSend>>
 
 Next == TrSched \/ TrListenEnd \/ TrCloseStart \/ TrCloseEnd \/ TrAcceptStart \/ TrAcceptEnd \/ TrStuck
-        \/ TrRebind \/ TrItemFate \/ TrLeak \/ TrOther \/ TrConnect \/ TrConnectStart \/ TrCleanupStart \/ TrAddrCheck \/ TrPanic
+        \/ TrRebind \/ TrItemFate \/ TrLeak \/ TrOther \/ TrConnect \/ TrConnectStart \/ TrCleanupStart \/ TrAddrCheck \/ TrPanic \/ TrTruncated
 Spec == Init /\ [][Next]_tvars
 
 Report == (l = Len(Trace) + 1) => PrintT(<<"RESULT", l - 1, nsched, ndrift, vio>>)
